@@ -58,10 +58,17 @@ def main():
     rows, order = load()
     items = R.corpus()
     work = []
+    # a check is re-run on an old row only if the row's patch touches a file the check's rules read at all (a change to the AEAD files
+    # cannot move the verdict of the HKDF check): FOOT maps check -> substrings of file names; checks not listed are re-run everywhere
+    FOOT = {"C10": ("hash", "backend"), "C11": ("hash", "backend"), "C12": ("hmac", "hash", "backend"), "C13": ("hkdf", "hmac", "hash", "backend"),
+            "C14": ("pbkdf2", "hmac", "hash", "backend"), "C15": ("prng", "hash", "backend", "random"), "C16": ("prng", "hash", "backend", "random"),
+            "C17": ("prng", "hash", "backend", "random")}
     for it in items:
         if it[0] in rows:
-            if checks:
-                work.append((it, checks))
+            files = " ".join(l for l in open(it[2]) if l.startswith("+++ "))
+            mine = [c for c in checks if c not in FOOT or any(k in files for k in FOOT[c])]
+            if mine:
+                work.append((it, mine))
         else:
             work.append((it, list(R.CHECKS)))
     R.snapshot()
